@@ -125,10 +125,14 @@ def analyse_switches(cfg, flags):
                 if sd[1] != 'call':
                     rv = sd[2].rv
                     if rv['k'] == 'discr':
-                        p = cfg._resolve_place(Place(rv['p']), 0)
-                        roots = [p]
+                        p0 = Place(rv['p'])
                         # through Try::branch: ControlFlow Break(1) <-> Err(1), Continue(0) <-> Ok(0)
-                        tb = try_branch_sources(cfg, p)
+                        tb = try_branch_sources(cfg, p0)
+                        if tb:
+                            p = p0       # the ControlFlow temp itself (origin() would already look through Try::branch)
+                        else:
+                            p = cfg._resolve_place(p0, 0)
+                        roots = [p]
                         roots += tb
                         info.var_roots = [place_key(r) for r in roots]
                         info.inverted = set(place_key(r) for r in tb if r.t.startswith('std::option::Option<'))
